@@ -319,6 +319,11 @@ func (db *Backend) GetObject(bucketName, objectName string, rangeRequest *gofake
 			return fmt.Errorf("gofakes3: could not unmarshal object at %q/%q: %v", bucketName, objectName, err)
 		}
 
+		// The unmarshalled byte slices alias bolt's memory map, which is only
+		// valid until the transaction ends; the object outlives it:
+		t.Contents = append([]byte(nil), t.Contents...)
+		t.Hash = append([]byte(nil), t.Hash...)
+
 		return nil
 	})
 
